@@ -543,6 +543,11 @@ class CfgWorld:
                 D.append({'target': 'claude_code', 'path': self.claude_cmds + '/' + fn, 'bytes': b})
         return D
     # ---- edits
+    def add_skill(self, name, enabled=True, extra=True):
+        self.opts['write_user_skills'] = True
+        files = {'SKILL.md': skill_md(name, 'one')}
+        if extra: files['ref/r.txt'] = b'r1'
+        self.modules.append({'id': 'skill:' + name, 'type': 'skill', 'dir': 'modules/skills/' + name, 'files': files, 'targets': [], 'enabled': enabled})
     def add_prompt(self):
         k = len([m for m in self.modules if m['id'].startswith('prompt:n')])
         self.opts['write_user_prompts'] = True
@@ -1085,6 +1090,34 @@ def script_foreign_manifest(st, cw, sb, rng):
     if st == 2:
         t = cw.edit_config(); cw.write()
         return ['cfg:' + t], rng.choice(CONFIRMED_ENTRIES), False, None
+    return None
+
+def script_prefix_siblings(st, cw, sb, rng):
+    """sibling output directories whose names are string prefixes of one another (skills lint / lint-fix / lint-fix2):
+    the longer-named ones are deployed first; then the shorter-named skill is switched on (its directory does not
+    exist yet), the deployed siblings change or are edited by the user.  "Below a missing directory" is a matter of path
+    components: the announced operations and pre-images of the siblings are those of files that exist"""
+    if st == 0:
+        base = rng.choice(['lint', 'fmt', 'a'])
+        cw.add_skill(base, enabled=False)
+        for suf in rng.sample(['-fix', '2', '_x', '.old'], rng.randrange(1, 3)):
+            cw.add_skill(base + suf, enabled=True, extra=rng.random() < 0.5)
+        cw.write()
+        return ['script:siblings_first'], 'cli_json', True, None
+    if st == 1:
+        tags = []
+        for m in cw.modules:
+            if m['type'] == 'skill' and not m['enabled']:
+                m['enabled'] = True
+        for m in cw.modules:
+            if m['type'] == 'skill' and rng.random() < 0.5:
+                m['files']['SKILL.md'] = skill_md(m['id'].split(':')[1], 'two'); tags.append('cfg:content')
+        cw.write()
+        if rng.random() < 0.5:
+            D = [d for d in cw.desired(None) if '/skills/' in d['path'] and os.path.exists(d['path'])]
+            if D:
+                world.write(rng.choice(D)['path'], b'edited by the user\n'); tags.append('user:drift')
+        return tags + ['script:enable_prefix_named_skill'], rng.choice(ENTRY), rng.random() < 0.5, None
     return None
 
 def script_case_rename(st, cw, sb, rng):
